@@ -789,7 +789,12 @@ class Generator(AbstractODSGenerator):
         return f'=HYPERLINK("#{self.get_in_out_sheet_name(transaction.asset)}.a{row}:z{row}"; "{value}")'
 
     def __get_hyperlinked_summary_value(self, asset: str, value: Any, year: int) -> Any:
-        row: int = self.__tax_sheet_year_2_row[_AssetAndYear(asset, year)]
+        asset_and_year: _AssetAndYear = _AssetAndYear(asset, year)
+        if asset_and_year not in self.__tax_sheet_year_2_row:
+            # This may occur if command line time filters are activated: the summary covers the whole year of the from-date,
+            # but the filtered gain / loss detail may have no row for that year (nothing to link to)
+            return value
+        row: int = self.__tax_sheet_year_2_row[asset_and_year]
         if isinstance(value, (RP2Decimal, int, float)):
             return f'=HYPERLINK("#{self.get_tax_sheet_name(asset)}.a{row}:z{row}"; {value})'
         return f'=HYPERLINK("#{self.get_tax_sheet_name(asset)}.a{row}:z{row}"; "{value}")'
